@@ -16,6 +16,7 @@ import (
 	"pgregory.net/rapid"
 
 	"github.com/jech/galene/group"
+	"github.com/jech/galene/token"
 	"github.com/jech/galene/verifkit"
 )
 
@@ -63,6 +64,28 @@ func TestVerif_C12_SignallingFuzz(t *testing.T) {
 		writeGroupFile(gFull, map[string]any{"users": users, "max-clients": 1})
 		writeGroupFile(gRedir, map[string]any{"users": users, "redirect": "https://elsewhere.example.org/group/x/"})
 		groups := []string{gOpen, gOpen, gFull, gRedir, tag + "missing", "", "../" + gOpen}
+		// tokens a client may present: with a name, with an empty name, without a name, expired, for another group
+		var toks []string
+		mkTok := func(name string, g string, user *string, exp time.Duration) {
+			e := time.Now().Add(exp)
+			if _, err := token.Update(&token.Stateful{Token: tag + name, Group: g, Username: user, Permissions: []string{"present", "message"}, Expires: &e}, ""); err != nil {
+				t.Fatalf("VERIF-HARNESS-ERROR: %v", err)
+			}
+			toks = append(toks, tag+name)
+		}
+		mkTok("named", gOpen, sp("john"), time.Hour)
+		mkTok("emptyname", gOpen, sp(""), time.Hour)
+		mkTok("noname", gOpen, nil, time.Hour)
+		mkTok("expired", gOpen, sp("john"), -time.Hour)
+		mkTok("other", gFull, nil, time.Hour)
+		defer func() {
+			for _, tk := range toks {
+				if _, etag, err := token.Get(tk); err == nil {
+					token.Delete(tk, etag)
+				}
+			}
+		}()
+		presented := append([]string{"nosuchtoken", "a.b.c", "eyJhbGciOiJub25lIn0.e30.", ""}, toks...)
 		s := newSim(rapid.IntRange(3, 5).Draw(t, "nclients"), func(n int) int { return rapid.IntRange(0, n-1).Draw(t, "sched") })
 		s.cheap = true
 		defer s.cleanup()
@@ -128,6 +151,22 @@ func TestVerif_C12_SignallingFuzz(t *testing.T) {
 				u := rapid.SampledFrom([]string{"op", "op", "pres", "obs", "op", "pres", "obs", "op", "pres", "obs", "op", "op", "pres", "obs", "op", "pres", "obs", "op", "pres", "nobody"}).Draw(t, "user")
 				m.Username = &u
 				m.Password = rapid.SampledFrom([]string{"p", "p", "p", "p", "p", "p", "p", "p", "p", "p", "p", "p", "p", "p", "p", "p", "p", "p", "p", "p", "p", "p", "p", "p", "wrong"}).Draw(t, "password")
+				// credential shapes other than name + password
+				switch rapid.IntRange(0, 9).Draw(t, "credShape") {
+				case 0:
+					m.Username = nil
+				case 1:
+					m.Username, m.Password = nil, ""
+					m.Token = rapid.SampledFrom(presented).Draw(t, "token")
+				case 2:
+					m.Password = ""
+					m.Token = rapid.SampledFrom(presented).Draw(t, "token")
+				case 3:
+					m.Token = rapid.SampledFrom(presented).Draw(t, "token")
+				}
+				if m.Token != "" && rapid.IntRange(0, 2).Draw(t, "tokenGroup") != 0 {
+					m.Group = gOpen
+				}
 				if sc.c.group != nil && m.Kind == "leave" {
 					m.Group = sc.c.group.Name()
 				}
